@@ -17,6 +17,7 @@ import hashlib
 import inspect
 import json
 import warnings
+import zlib
 
 import networkx as nx
 import numpy as np
@@ -86,10 +87,14 @@ def run_sim_sequence(case):
         pool["nbr_kwargs"] = sc.nbr_kwargs
     names = sorted(pool)
     out = []
+    succeeded, rejected = set(), []
     for step, call in enumerate(case["calls"]):
-        name, full = call
+        name, full = call[0], call[1]
+        opt = bool(call[2]) if len(call) > 2 else False
         before = {nm: callseq.snap(pool[nm]) for nm in names}
-        sim = SimRandom(SEEDED, seed=case["seqseed"] + step)
+        # the same call (function, return mode) always gets the same draws, so a repeat differs from
+        # its first occurrence only through state carried over in the shared argument objects
+        sim = SimRandom(SEEDED, seed=case["seqseed"] + zlib.crc32(("%s|%s|%s" % (name, full, opt)).encode()) % 100000)
         kw = {"tmin": case["tmin"], "return_full_data": full}
         if full and name not in ("percolate", "get_infected_nodes"):
             kw["sim_kwargs"] = sim_kwargs
@@ -104,11 +109,22 @@ def run_sim_sequence(case):
             kw["recovery_weight"] = "nw" if case.get("nw") else None
             res = run_under(sim, getattr(EoN, name), G, case["tau"], case["gamma"], **kw)
         elif name == "fast_nonMarkov_SIR":
-            res = run_under(sim, EoN.fast_nonMarkov_SIR, G, trans_time_fxn=tabs.sir_trans_time, rec_time_fxn=tabs.sir_rec_time, **kw)
+            if opt:
+                res = run_under(sim, EoN.fast_nonMarkov_SIR, G, trans_and_rec_time_fxn=tabs.sir_joint, **kw)
+            else:
+                res = run_under(sim, EoN.fast_nonMarkov_SIR, G, trans_time_fxn=tabs.sir_trans_time, rec_time_fxn=tabs.sir_rec_time, **kw)
         elif name == "fast_nonMarkov_SIS":
-            res = run_under(sim, EoN.fast_nonMarkov_SIS, G, trans_time_fxn=tabs.sis_trans_time, rec_time_fxn=tabs.sis_rec_time, **kw)
+            if opt:
+                res = run_under(sim, EoN.fast_nonMarkov_SIS, G, trans_and_rec_time_fxn=tabs.sis_joint, **kw)
+            else:
+                res = run_under(sim, EoN.fast_nonMarkov_SIS, G, trans_time_fxn=tabs.sis_trans_time, rec_time_fxn=tabs.sis_rec_time, **kw)
         elif name == "discrete_SIR":
-            res = run_under(sim, EoN.discrete_SIR, G, args=(case["p"],), **kw)
+            if opt:
+                # the optional user rules (own copy of the keyed tables so that a repeat sees the same answers)
+                t2 = simcases.Tables(case, labels)
+                res = run_under(sim, EoN.discrete_SIR, G, test_transmission=t2.contact_ok, test_recovery=t2.recovers, **kw)
+            else:
+                res = run_under(sim, EoN.discrete_SIR, G, args=(case["p"],), **kw)
         elif name in ("basic_discrete_SIR", "percolation_based_discrete_SIR", "basic_discrete_SIS"):
             res = run_under(sim, getattr(EoN, name), G, case["p"], **kw)
         elif name == "Gillespie_simple_contagion":
@@ -134,11 +150,18 @@ def run_sim_sequence(case):
         else:
             raise ValueError(name)
         if res.status == "exc":
-            return [V("crash", "%s/exception/%s" % (name, type(res.exc).__name__),
-                      "call %d of the sequence %r (shared arguments, initial set as %s) raised %s: %s"
-                      % (step, case["calls"], cont, type(res.exc).__name__, res.exc), case)]
+            # C19 is about repeated calls: a call that fails although the very same call (same function,
+            # same shared arguments, same return mode) succeeded earlier in this sequence is a violation;
+            # an entry point that rejects these arguments outright is another property's business
+            if (name, full, opt) in succeeded:
+                return [V("repeat", "%s/second-call-fails" % name,
+                          "call %d of the sequence %r (shared arguments, initial set as %s) raised %s: %s although the same "
+                          "call succeeded earlier in the sequence" % (step, case["calls"], cont, type(res.exc).__name__, res.exc), case)]
+            rejected.append(name)
+            continue
         if res.status != "done":
             return []
+        succeeded.add((name, full, opt))
         after = {nm: callseq.snap(pool[nm]) for nm in names}
         changed = callseq.diff(names, before, after, pool)
         if changed:
@@ -150,7 +173,7 @@ def run_sim_sequence(case):
 
 
 def gen_sim_sequence(rng):
-    base = simcases.gen_case(rng, "fast_SIR", nmax=8, buggify=False, allow_rho=False, horizon="finite")
+    base = simcases.gen_case(rng, "fast_SIR", nmax=8, buggify=False, allow_rho=False, horizon="finite", selfloops=0.35)
     spec = base["graph"]
     # every attribute any simulator may be asked for
     for e in spec["edges"]:
@@ -171,9 +194,12 @@ def gen_sim_sequence(rng):
     _, _, _, csts = contagion.make_complex_model(cplx["model"], cplx["params"])
     cplx["IC"] = [rng.choice(csts) for _ in range(n)]
     names = sorted(simcases.SIMS) + ["percolate", "get_infected_nodes"]
-    calls = [[rng.choice(names), rng.random() < 0.5] for _ in range(rng.randint(3, 6))]
+    calls = [[rng.choice(names), rng.random() < 0.5, rng.random() < 0.5] for _ in range(rng.randint(3, 6))]
+    # repeats of an earlier call are what the property is about: duplicate one or two of them
+    for _ in range(rng.randint(1, 2)):
+        calls.append(list(rng.choice(calls)))
     cont = rng.choice(["list", "set", "tuple", "ndarray", "dict"])
-    if cont == "ndarray" or (cont == "tuple" and spec["label"] in ("tuple", "fset")):
+    if cont == "ndarray" or (cont == "tuple" and spec["label"] in ("tuple", "fset", "falsy")):
         if spec["label"] not in ("int", "perm"):
             cont = "list"
     base.update({"simple": {k: v for k, v in simple.items() if k != "graph"},
